@@ -295,6 +295,22 @@ fn insert_parsed_items_into_schema(
     }
 
     for (abstract_parent_entity_name, concrete_child_entity_names) in supertype_to_subtype_map {
+        // e.g. `type Foo implements Node`, where `Node` is never defined
+        if schema
+            .item
+            .get(abstract_parent_entity_name.reference())
+            .is_none()
+        {
+            schema.non_fatal_diagnostics.push(Diagnostic::new(
+                format!(
+                    "`{abstract_parent_entity_name}` is listed as an interface that a type \
+                    implements, but it is not a type that has been defined."
+                ),
+                None,
+            ));
+            continue;
+        }
+
         let typename_entity_name = format!("{}__discriminator", abstract_parent_entity_name)
             .intern()
             .to::<EntityName>()
